@@ -488,7 +488,7 @@ func MonC12() *Mon {
 			}
 			// "... or with a change-view request if the completed block fails verification": a node that rejects the
 			// completed block as invalid although the application accepts exactly that block answered wrongly
-			if txInvalid && !responded && !n.RejectBlocks {
+			if txInvalid && !responded && !n.RejectBlocks && !n.RejectHeights[o.h] {
 				acceptable := true
 				for _, th := range o.hashes {
 					if tx, ok := n.W.TxByHash(th); !ok || tx.Poisoned() {
